@@ -90,7 +90,9 @@ impl CountMinSketch {
             return Err(CacheError::InvalidCountMinWidth(ctrs));
         }
 
-        let ctrs = ctrs.next_power_of_two();
+        // at least two counters: a row stores two 4-bit counters per byte, so a single
+        // counter would give zero-byte rows and every increment/estimate would index out of bounds
+        let ctrs = ctrs.next_power_of_two().max(2);
         let hctrs = ctrs / 2;
 
         let mut source = StdRng::seed_from_u64(
